@@ -166,7 +166,7 @@ PROPS = {
                           'them; a put succeeds iff the shadow model allows it (all frames allocated, whole-huge-frame rule) and frees exactly '
                           'them; a failing call changes no frame.'),
         'partial': ('sequentially proved at full strength for get/put/drain/change_tree in every state reachable from a free-all / allocate-all construction '
-                    '(any frame count); for Init::Recover/None the invariant of the handed-over state is assumed (C05/C07)'),
+                    '(any frame count); for Init::Recover/None the invariant of the handed-over state is assumed (C05/C07); the state after any concurrent history of public calls (all returned) satisfies it too (conc_then_history_keeps_invariant)'),
         'assumptions': [],
     },
     'C03': {
@@ -193,7 +193,7 @@ PROPS = {
                           'stats_at / is_free probes; validate() must not panic while no tree is offline. Concurrent: the same at the quiescent '
                           'end of every explored schedule. ' + T_RULE) + E_RULE,
         'partial': ('exact views (stats, stats_at huge/tree), the per-tree identity fast + hidden = exact, the tree_stats program (no panic, read-only, total = tree counters + reservations) '
-                    'validate(), stats_at(frame, 0), is_free (all orders) and lower counters at the quiescent end of every interleaving proved; the tree counters at concurrent ends are carried by the correspondence'),
+                    'validate(), stats_at(frame, 0), is_free (all orders) proved; at the quiescent end of EVERY interleaving of public calls (get, put at allocation order, drain) in which every call returned the whole sequential invariant holds again (conc_quiescent_upper_invariant): fast = exact - offline and validate() there are theorems; interleavings with a trapped call, partial frees of huge allocations (K1) and change_tree under interleavings are carried by the correspondence'),
         'assumptions': [],
     },
     'C05': {
@@ -243,7 +243,7 @@ PROPS = {
                           'offline trees has a free frame in the shadow state; a targeted get fails only if its block is not entirely free or lies in '
                           'an offline tree (and succeeds only on free blocks: ownership oracle). Drain flavor: a drain precedes most probes.') + E_RULE,
         'partial': ('proved: drain clears all reservations; after a drain a base-order get succeeds whenever a tree has a positive counter (= a free frame '
-                    'outside offline trees); targeted gets are exact (C02) and complete (a free block in a tree that is not hidden is always obtained); for concurrent interleavings the quiescent drained states are explored'),
+                    'outside offline trees); targeted gets are exact (C02) and complete (a free block in a tree that is not hidden is always obtained); the quiescent end of every interleaving of public calls satisfies the invariant these theorems start from (conc_quiescent_then_drain_get)'),
         'assumptions': [],
     },
     'C11': {
@@ -258,12 +258,12 @@ PROPS = {
         'assumptions': [],
     },
     'C14': {
-        'oracles': ['C14', 'C04'],
+        'oracles': ['C14', 'C04'], 'bv_decide': True,
         'geoms': {'quick': ['default', 'th1'], 'thorough': ALLG},
         'runs': {'quick': [seq('mixed', 30, 150), seq('change', 10, 150)], 'thorough': [seq('mixed', 800, 300), seq('change', 300, 300), seq('drain', 200, 300)]},
         'rule': S_RULE + ' Oracle: the per-class rows of tree_stats() partition its totals (sum of class free = free_frames, sum of class trees = trees) and no row is negative/wrapped.',
         'partial': ('proved for every invariant state of every sequential history of a constructed allocator (whole tree_stats program, both sums); '
-                    'quiescent ends of concurrent interleavings are explored'),
+                    'and for the quiescent end of every interleaving of public calls in which every call returned (conc_quiescent_partition); interleavings with tree changes are explored'),
         'assumptions': [],
     },
     'C15': {
